@@ -328,7 +328,7 @@ def scenario(ch, cfg):
     chain_len = 1 + ch.weighted([3, 1, 1], "chain")
     chain_ks = [1 + ch.draw(N, f"chain_k{i}") for i in range(chain_len - 1)]
 
-    def one_fault(k_fail, exc_class, prefix):
+    def one_fault(k_fail, exc_class, prefix, long_history=False):
         """prefix: list of earlier failing ticks (chain).  Returns nothing; records violations."""
         nonlocal evaluations
         t_a = Tick()
@@ -379,6 +379,20 @@ def scenario(ch, cfg):
         # ---- as if it had not happened: A vs a twin built fresh from the expected state
         t_b = Tick()
         B = _mk(defs, t_b, globs=state)
+        if long_history:
+            # a long history of failed calls on ONE interpreter (400 failures, each unwinding three nested calls):
+            # whatever a failed call leaves behind must not add up
+            bump("probe_long_history_of_failed_calls")
+            for K in (A, B):
+                for line in ("lh3::{t(0;x)+1}", "lh2::{lh3(x)*2}", "lh1::{lh2(x)-1}"):
+                    K(line)
+            for _ in range(400):
+                t_a.reset(fail_at=1, exc_class=exc_class)
+                r = _run(A, "lh1(1)")
+                if r[0] != "exc" or _depth(A) != d0:
+                    viol("C03:context-depth-not-restored", f"lh1(1) failing three calls deep: result {str(r)[:60]}, context depth {d0} -> {_depth(A)}")
+                    return
+            evaluations += 400
         ba = battery(A, t_a)
         bb = battery(B, t_b)
         if ba != bb:
@@ -408,6 +422,8 @@ def scenario(ch, cfg):
             break
     if not violations and chain_len > 1:
         one_fault(1 + ch.draw(N, "chain_last"), ch.pick(exc_classes, "chain_ec"), chain_ks)
+    if not violations and ch.draw(3, "longhist") == 0:
+        one_fault(1 + ch.draw(N, "long_last"), ch.pick(exc_classes, "long_ec"), [], long_history=True)
     # ---- natural fault: an undefined function applied right after a tick
     if not violations:
         bump("probe_natural_fault_undefined_fn")
@@ -453,8 +469,8 @@ def scenario(ch, cfg):
 
 # ------------------------------------------------------------------ substitution
 BODIES = {
-    1: ["x+1", "x*x", ":[x;10;20]", "[a];a::x+1;a*2", "x,x", ":[x;x+1;x-1]", "g1+x", "[a b];a::x;b::a+g1;b-a"],
-    2: ["x-y", "(x*10)+y", ":[x;y;0-y]", "[a];a::x+y;a*a", "x,y", "y,x", ":[y;x;g1]"],
+    1: ["x+1", "x*x", ":[x;10;20]", "[a];a::x+1;a*2", "x,x", ":[x;x+1;x-1]", "g1+x", "[a b];a::x;b::a+g1;b-a", ",x*g1", "[a];a::x+g1;a*2"],
+    2: ["x-y", "(x*10)+y", ":[x;y;0-y]", "[a];a::x+y;a*a", "x,y", "y,x", ":[y;x;g1]", "(x*g1),y"],
     3: ["(x*100)+(y*10)+z", ":[x;y;z]", "[a];a::x-y;a*z", "x,y,z", "z,y,x", ":[z;x-y;y-x]"],
 }
 ARGV = ["0", "1", "2", "7", "[]", '""', '"a"', "[3 4]", "0.0", "2.5", '"hello"']
@@ -536,7 +552,7 @@ def scenario_subst(ch, cfg):
         if tick_ids is not None and sorted(tick.log) != sorted(tick_ids):
             viol(f"C03:subst:{form.split(':')[0]}-argument-evaluation-count",
                  f"{' ; '.join(src_lines)}: argument ticks evaluated {sorted(tick.log)}, expected exactly once each {sorted(tick_ids)}")
-        g = {k_: v for k_, v in _globals(k).items() if k_ not in ("F", "v", "p1", "p2", "p3")}
+        g = {k_: v for k_, v in _globals(k).items() if k_ not in ("F", "v", "p1", "p2", "p3", "r9")}
         if r == w and r[0] == "ok" and g != exp_globals:
             viol(f"C03:subst:{form.split(':')[0]}-leaves-different-globals", f"{' ; '.join(src_lines)}: globals {g} vs {exp_globals}")
 
@@ -630,6 +646,21 @@ def scenario_subst(ch, cfg):
         subm = re.sub(r"\b([xyz])\b", r"s\1", body[2:-1].split(";")[1] if body.startswith(":[") else body)
         wantm = _run(kM, "{" + subm + "}()")
         check("over-matrix", ["F/[[1 2] [3 4]]"], want=wantm)
+    # ---- the same function after a global it reads has been reassigned: the body with the arguments substituted,
+    #      evaluated under the NEW value (nothing about an earlier call may be remembered)
+    if "g1" in body:
+        bump("probe_subst_after_global_reassigned")
+        kE2, tE2 = fresh()
+        for name, a in zip("xyz", args):
+            kE2(f"s{name}::{a}")
+        kE2("g1::3")
+        want2 = _run(kE2, "{" + sub + "}()")
+        check("again-after-global-reassigned", [f"F({';'.join(args)})", "g1::3", f"F({';'.join(args)})", "r9::F(" + ";".join(args) + ");g1::10;r9"], want=want2)
+    # ---- a projection held in a variable as the verb of each
+    if n == 2 and all(a in ("0", "1", "2", "7") for a in args) and not body.startswith("[") and expected[0] == "ok":
+        bump("probe_subst_projection_as_each_verb")
+        check("projection-each", [f"p1::F({args[0]};)", f"p1'[{args[1]} {args[1]}]"], want=("ok", ("L", (expected[1], expected[1]))))
+        check("projection-each", [f"p1::F(;{args[1]})", f"p1'[{args[0]} {args[0]}]"], want=("ok", ("L", (expected[1], expected[1]))))
     # ---- projections: every non-empty proper subset of holes, filled in every order, one or several steps
     if n >= 2:
         bump("probe_subst_projection_patterns")
